@@ -153,6 +153,7 @@ func (u *Unit) registerModels() {
 				pl := fx.loadLeaves(st, iv.Box, num(0), et)
 				obj := fx.def("putobj", pl[0])
 				fx.oblige("own:pool-put", "owned", st.PC, or(sel(st.Pooled, obj), not(sel(fx.entry.Alloc, obj))), c.Pos, "value put into the pool must be owned by this call")
+				fx.oblige("own:pool-put", "once", st.PC, not(sel(st.Released, obj)), c.Pos, "a value is handed back to the pool at most once (a second Put would give the same buffer to two owners)")
 				st.Released = fx.def("released", sto(st.Released, obj, tTrue))
 				if _, isSlice := pt.Elem().Underlying().(*types.Slice); isSlice {
 					hdr := fx.loadLeaves(st, obj, num(0), pt.Elem())
